@@ -220,3 +220,64 @@ def rule_declsrc(ctx):
             raise AnalysisError("R-DECLSRC: clause-building closure of %s not found" % key)
     res.require_floor(8)
     return res
+
+
+NAME_FIELDS = {"xtor", "tag", "label", "name"}
+
+
+def idcmp_sites(fx, crates):
+    """comparisons of the `.id` component of identifiers that are names (xtors, tags, labels, definition/type names): these
+    identifiers are created with id 0 and told apart by name only"""
+    from ..mir import Fn, Flow, op_root, place_fields
+    for key, f in sorted(fx.fns.items()):
+        if f["crate"] not in crates or "{promoted" in key:
+            continue
+        if f.get("impl_trait") in ("core::cmp::PartialEq", "core::cmp::PartialOrd", "core::cmp::Ord", "core::hash::Hash", "core::clone::Clone", "core::fmt::Debug"):
+            continue
+        fn = None
+        for bi, b in enumerate(f["blocks"]):
+            for s in b["stmts"]:
+                rv = s.get("rv")
+                if s["k"] != "assign" or rv["k"] != "binop" or rv["op"] not in ("Eq", "Ne"):
+                    continue
+                fn = fn or Fn(f)
+                if bi not in fn.reach:
+                    continue
+                flow = Flow(fn)
+                for o in (rv["a"], rv["b"]):
+                    r = op_root(o)
+                    if r is None:
+                        continue
+                    paths = set()
+                    for org in flow.origins(r, tuple(place_fields(o["pl"]))):
+                        if org[0] in ("arg", "call") and len(org[2]) >= 1 and org[2][-1] == "id":
+                            # the identifier whose id is read: field before `.id`, or the parameter itself
+                            owner = org[2][-2] if len(org[2]) >= 2 else (fn.var_name(org[1]) if org[0] == "arg" else None)
+                            paths.add(owner)
+                    bad = [p for p in paths if p in NAME_FIELDS]
+                    if bad:
+                        yield key, s["sp"], bad[0]
+                        break
+
+
+def rule_idcmp(ctx):
+    fx = ctx.fx
+    res = RuleResult("R-IDCMP", "names are compared by name: xtor/tag/label/definition identifiers are built with Identifier::new (id 0) "
+                     "and never uniquified, so a comparison of their `.id` components is vacuously true and selects the first "
+                     "clause/declaration; no Eq/Ne on the id of such an identifier may exist in core_lang/core2axcut/axcut/"
+                     "axcut2backend (expected count 0, positive control in fixtures/poscontrol)")
+    crates = {"scc_core_lang", "core2axcut", "axcut", "axcut2backend", "fun2core"}
+    n = 0
+    for key, sp, fld in idcmp_sites(fx, crates):
+        n += 1
+        ikey = "%s@%s.id" % (key, fld)
+        res.inst(ikey, sp["file"], sp["line"], "violation")
+        res.violate(ikey, "compares the `.id` of the name identifier `%s` (always 0): the comparison holds for every %s, so the first one is selected" % (fld, fld),
+                    sp["file"], sp["line"])
+    nb = sum(1 for f in fx.fns.values() if f["crate"] in crates)
+    res.inst("bodies-scanned=%d" % nb, None, None, "ok")
+    pc = list(idcmp_sites(ctx.fixture("poscontrol"), {"poscontrol"}))
+    if len(pc) < 1:
+        raise AnalysisError("R-IDCMP positive control not reported")
+    res.inst("poscontrol:idcmp(%d)" % len(pc), None, None, "ok", "positive control fired")
+    return res
